@@ -23,7 +23,8 @@ def run(tier):
         free = [("sliding", dict(size=4, slide=2, moo=3, al=0), 300, 60), ("sliding", dict(size=5, slide=2, moo=2, al=0), 300, 60),
                 ("sliding", dict(size=2, slide=5, moo=1, al=0), 200, 50), ("sliding", dict(size=6, slide=2, moo=0, al=0), 200, 50),
                 ("sliding", dict(size=7, slide=3, moo=4, al=0), 200, 60)]
-    return win.run_family("C08", tier, plan, free, ASSUME)
+    post = lambda res, rng, vh, scen: win.proc_sliding_stage(res, rng, vh, scen, quick=(tier == "quick"))
+    return win.run_family("C08", tier, plan, free, ASSUME, post=post)
 
 
 if __name__ == "__main__":
